@@ -312,7 +312,7 @@ def r6_maxabs(ctx):
                     else:
                         names = {outer, inner} | fns
                         known = {"numpy.min", "numpy.max", "numpy.nanmin", "numpy.nanmax"}
-                        if names <= known and same_elem:
+                        if names <= known and same_elem and not (outer == MAX and inner == MAX and fns == {MIN, MAX}):
                             ok, why = False, "uses outer=%s inner=%s over %s (expected %s of %s of |%s, %s|)" % (outer, inner, sorted(fns), MAX, MAX, MIN, MAX)
         n += 1
         ctx.check("R6", "%s|formula|%s" % (qn, tag), ok, "maxabs == %s_i %s(|%s a_i|, |%s a_i|) over every argument" % (MAX.split(".")[1], MAX.split(".")[1], MIN.split(".")[1], MAX.split(".")[1]),
